@@ -1728,3 +1728,17 @@ func (g *GoFakeS3) httpError""", """		g.log.Print(LogInfo, p, "=>", rq.URL)
 }
 
 func (g *GoFakeS3) httpError""")
+
+# ---------------------------------------------------------------- F25 / F26
+REVERT("f25-revert-prefix-once-across-pages", ["C04"], {"C04": ["R04.7"]}, "0019-fix-a-common-prefix-is-reported-once-when-a-page-bou.patch")
+REVERT("f26-revert-fs-walk-sorted", ["C03"], {"C03": ["R03.8"]}, "0020-fix-fs-backends-list-keys-in-byte-order-when-they-ha.patch")
+
+M("c03-walk-sorted-by-size", ["C03"], {"C03": ["R03.8"]}, "backend/s3afero/single.go",
+  """		return response.Contents[i].Key < response.Contents[j].Key""", """		return response.Contents[i].Size < response.Contents[j].Size""")
+
+M("c04-marker-group-seeded-unconditionally", ["C04"], {"C04": ["R04.7"]}, "backend/s3mem/backend.go",
+  """		if prefix.Match(page.Marker, &match) && match.CommonPrefix {
+			lastMatchedPart = match.MatchedPart
+		}""", """		if prefix.Match(page.Marker, &match) && match.CommonPrefix {
+			lastMatchedPart = ""
+		}""")
